@@ -65,7 +65,7 @@ def recheck(d, meta, patch):
         r = sh('cd %s && patch -p1 < %s' % (COPY, patch))
         if r.returncode:
             return {'error': 'patch(1) failed: ' + (r.stdout + r.stderr)[-200:]}
-        checks = meta.get('caught_by') or sorted(meta.get('checks', {}))
+        checks = meta.get('recheck_with') or meta.get('caught_by') or sorted(meta.get('checks', {}))
         res = {}
         # does the change still break anything on this HEAD? (a later fix may have made it harmless)
         demo = os.path.join(d, 'demo.py')
